@@ -48,14 +48,11 @@ def ix_subst(e, name, by):
 
 
 def const(x):
+  """Literals are read as the decimal the source shows (repr gives the shortest decimal that round-trips)."""
   if isinstance(x, float):
-    s = repr(x)
-    if "e" in s or "E" in s or "inf" in s or "nan" in s:
-      x = fractions.Fraction(x) if math.isfinite(x) else None
-      if x is None:
-        raise TranslationError("non-finite literal")
-      return ("const", x)
-    return ("const", fractions.Fraction(s))
+    if not math.isfinite(x):
+      raise TranslationError("non-finite literal")
+    return ("const", fractions.Fraction(repr(x)))
   return ("const", fractions.Fraction(x))
 
 
